@@ -15,7 +15,7 @@ Section Carv1.
   Variable hdrdec : bytes -> option (list bytes * N).
 
   (* the options the internal reader's Next loop runs under: never trusted *)
-  Definition untrusted (o : ropts) : ropts := mkropts (o_zeof o) (o_maxh o) (o_maxs o) false.
+  Definition c02_untrusted (o : ropts) : ropts := mkropts (o_zeof o) (o_maxh o) (o_maxs o) false.
 
   Theorem carv1_read_all_trunc_v1 o roots bs k :
     hdr_good hdrdec roots -> blen (enc_header (Some roots) 1) <= o_maxh o ->
@@ -41,9 +41,9 @@ Section Carv1.
       unfold carv1_read_all. subst hb.
       rewrite (read_header_payload hdrdec (o_maxh o) roots _ Hg Hmax H63). cbn [N.eqb Pos.eqb negb].
       destruct roots as [|r0 rs]; [congruence|].
-      fold (untrusted o). unfold scan_all.
+      fold (c02_untrusted o). unfold scan_all.
       remember (ld (enc_header (Some (r0 :: rs)) 1)) as hdr.
-      destruct (scan_blocks_trunc hok hdrdec (untrusted o) bs Hok (fun _ => Hh) (k - blen hdr)
+      destruct (scan_blocks_trunc hok hdrdec (c02_untrusted o) bs Hok (fun _ => Hh) (k - blen hdr)
                   (S (length (take (k - blen hdr) (enc_sections bs)))) []) as (j & e & Hj & Hne' & Hs).
       + rewrite blen_app in Hk. lia.
       + pose proof (blen_take (k - blen hdr) (enc_sections bs)) as Hbt. unfold blen in Hbt at 1.
@@ -65,8 +65,8 @@ Section Carv1.
     intros Hg Hmax H63 Hne Hok Hh Hb Hbad. unfold carv1_read_all.
     rewrite (read_header_payload hdrdec (o_maxh o) roots _ Hg Hmax H63). cbn [N.eqb Pos.eqb negb].
     destruct roots as [|r0 rs]; [congruence|].
-    fold (untrusted o).
-    rewrite (scan_all_corrupt hok hdrdec (untrusted o)) by (try assumption; reflexivity).
+    fold (c02_untrusted o).
+    rewrite (scan_all_corrupt hok hdrdec (c02_untrusted o)) by (try assumption; reflexivity).
     reflexivity.
   Qed.
 End Carv1.
